@@ -28,6 +28,10 @@ R2 == Reg(<<R(0), R(-4)>>, <<R(12), R(4)>>, <<"m", "s">>)
 R3 == Reg(<<R(-2), R(0), R(1)>>, <<R(2), R(9), R(3)>>, <<"m", "s", "K">>)
 Sub2a == Reg(<<R(0), R(-4)>>, <<R(8), R(0)>>, <<"m", "s">>)
 Sub2b == Reg(<<R(4), R(-4)>>, <<R(12), R(4)>>, <<"m", "s">>)
+(* 1-D box [-4,8] cut into 3 cells with a two-cell subregion: the API takes plain numbers for vectors, factors and    *)
+(* reference points there                                                                                          *)
+R1 == Reg(<<R(-4)>>, <<R(8)>>, <<"m">>)
+Sub1a == Reg(<<R(0)>>, <<R(8)>>, <<"m">>)
 Sub3a == Reg(<<R(0), R(3)>>  \o <<R(1)>>, <<R(2), R(9), R(3)>>, <<"m", "s", "K">>)
 Vec2(j) == <<10 * j + 1, 10 * j + 2>>
 Vec3(j) == <<10 * j + 1, 10 * j + 2, 10 * j + 3>>
@@ -37,6 +41,7 @@ ScenarioHeap(sc) ==
      [] sc = "region3" -> [h |-> (1 :> R3), r |-> [r |-> 1]]
      [] sc = "mesh2"   -> [h |-> (1 :> R2 @@ 2 :> Sub2a @@ 3 :> Sub2b @@ 4 :> Msh(1, <<3, 2>>, <<2, 3>>)),
                            r |-> [r |-> 1, m |-> 4]]
+     [] sc = "mesh1"   -> [h |-> (1 :> R1 @@ 2 :> Sub1a @@ 3 :> Msh(1, <<3>>, <<2>>)), r |-> [r |-> 1, m |-> 3]]
      [] sc = "mesh3"   -> [h |-> (1 :> R3 @@ 2 :> Sub3a @@ 3 :> Msh(1, <<2, 3, 1>>, <<2>>)),
                            r |-> [r |-> 1, m |-> 3]]
      [] sc = "twomesh" -> [h |-> (1 :> R2 @@ 2 :> Msh(1, <<3, 2>>, <<>>) @@ 3 :> Msh(1, <<6, 1>>, <<>>)),
